@@ -11,7 +11,7 @@ import numpy as np
 from . import common
 
 PROP = "C16"
-MODULES = ["PdsVerif.Props.C16", "PdsVerif.Lemmas.StandardizeView", "PdsVerif.Lemmas.StandardizeBasic"]
+MODULES = ["PdsVerif.Props.StdArithTie", "PdsVerif.Props.C16", "PdsVerif.Lemmas.StandardizeView", "PdsVerif.Lemmas.StandardizeBasic"]
 MODEL_MODULES = ["PdsVerif.Model.Standardize", "PdsVerif.Model.StandardizeDrv"]
 REQUIRED = [
     "PdsVerif.C16." + n
@@ -23,7 +23,17 @@ REQUIRED = [
 ] + [
     "PdsVerif.Model.Standardize." + n
     for n in "vectorsAlong_spec vectorsAlong_isSome unview_vectorsAlong unview_spec view_spec ravel_split colSum_get".split()
+] + [
+    "PdsVerif.StdArithTie." + n
+    for n in "accVec_fields accTensor_fields means_eq varOf_eq scales_eq affine_eq affine_get local_mean_eq".split()
 ]
+
+
+def translate(repo):
+    """element-wise statements of Standardize (post.py) -> Generated/StdArith.lean (theorems: Props/StdArithTie.lean)"""
+    from .translate import standardize
+    return standardize.generate(repo)
+
 RULE = (
     "a case is (data set of N<=40 feature vectors of dimension F<=6; two independent histories over it = random "
     "partitions of a random permutation into accumulate calls, each a 1-D vector or a rank 2-4 tensor along a random "
